@@ -8,15 +8,19 @@
 //!       all generic                             → setters (`pub fn set_*(self | mut self, p: T, ..) -> Self | Client<..>`)
 //!                                                 and plain getters (`&self.f` / `self.f.as_ref()`)
 //!       one `EndpointSet` | `EndpointMaybeSet`  → gated methods (see below)
-//!   setter / new body:   ( `self.f = E;` )*  ( `self` | `Client {{ f: E, .., (..self)? }}` | `Self {{ .. }}` )
-//!       E ::= self.f | <param> | Some(E) | None | <Enum>::<Variant> | PhantomData
+//!   setter / new body:   ( `self.f = E;` | `x.f = E;` | `let [mut] x = CV;` | `let Client { f, g: y, h: _ } = CV;` )*  CV
+//!       CV ::= `self` | x | `Client { f: E, .., (..CV)? }` | `Self { .. }` | CV.h(E, ..)      (a client value)
+//!              h a private by-value method of an `impl Client` block whose body has the same form (read in place)
+//!       E ::= self.f | x.f | <param> | <name bound by destructuring> | Some(E) | None | <Enum>::<Variant> | PhantomData
 //!       a struct literal without `..self` must list every field
 //!   return type:  `Self`, or `Client<.., R1, .., Rn>` with Ri ∈ {EndpointSet, EndpointMaybeSet, EndpointNotSet, <the
 //!       impl block's own parameter at some position>}
 //!   gated method body (a single expression):
 //!       getter   U
 //!       wrapper  Ok( self.<name>_impl(U, <param>, ..) )  |  self.<name>_impl(U, <param>, ..)
-//!       U ::= B | B.expect("lit") | B.ok_or(<Path>::<Variant>("lit"))?        B ::= self.f.as_ref() | self.<getter>()
+//!       U ::= B | B.expect("lit") | B.ok_or(<Path>::<Variant>("lit"))? | self.h()[?]     B ::= self.f.as_ref() | self.<getter>()
+//!              h a private `&self` method whose body is a U without `?`, or
+//!              `match self.f { Some(ref x) => Ok(x), None => Err(<Path>::<Variant>("lit")) }` (= `self.f.as_ref().ok_or(..)`)
 use crate::inventory::Inv;
 use crate::lean::{self, lower_camel, snake};
 use crate::{canon, fail, Sources, R};
@@ -144,6 +148,20 @@ fn self_field(e: &syn::Expr) -> Option<String> {
     None
 }
 
+/// `x.f` with x a plain identifier other than `self`
+fn var_field(e: &syn::Expr) -> Option<(String, String)> {
+    if let syn::Expr::Field(f) = e {
+        if let syn::Expr::Path(p) = &*f.base {
+            if let (Some(id), syn::Member::Named(n)) = (p.path.get_ident(), &f.member) {
+                if id != "self" {
+                    return Some((id.to_string(), n.to_string()));
+                }
+            }
+        }
+    }
+    None
+}
+
 fn strip(e: &syn::Expr) -> &syn::Expr {
     match e {
         syn::Expr::Paren(p) => strip(&p.expr),
@@ -158,7 +176,14 @@ struct FnCtx<'a> {
     env: BTreeMap<String, Sym>,
     has_self: bool,
     cx: &'a Ctx<'a>,
+    /// local names for values: the function's parameters (`p` ↦ `Param(p)`), the parameters of a private helper
+    /// being inlined (↦ the arguments), names bound by destructuring a client value (↦ that field's value)
+    scalars: BTreeMap<String, Sym>,
+    /// local client values (`let [mut] x = <client value>;`)
+    clients: BTreeMap<String, BTreeMap<String, Sym>>,
 }
+
+type CMap = BTreeMap<String, Sym>;
 
 impl<'a> FnCtx<'a> {
     fn kind(&self, s: &Sym) -> R<Kind> {
@@ -189,6 +214,14 @@ impl<'a> FnCtx<'a> {
                 None => fail(FILE, &self.item, format!("`self.{f}` to name a field of Client")),
             };
         }
+        if let Some((x, f)) = var_field(e) {
+            if let Some(m) = self.clients.get(&x) {
+                return match m.get(&f) {
+                    Some(s) => Ok(s.clone()),
+                    None => fail(FILE, &self.item, format!("`{x}.{f}` to name a field of Client")),
+                };
+            }
+        }
         match e {
             syn::Expr::Path(p) => {
                 let segs: Vec<String> = p.path.segments.iter().map(|s| s.ident.to_string()).collect();
@@ -198,6 +231,9 @@ impl<'a> FnCtx<'a> {
                     }
                     if segs[0] == "PhantomData" {
                         return Ok(Sym::Phantom);
+                    }
+                    if let Some(v) = self.scalars.get(&segs[0]) {
+                        return Ok(v.clone());
                     }
                     if self.params.iter().any(|(n, _)| n == &segs[0]) {
                         return Ok(Sym::Param(segs[0].clone()));
@@ -223,6 +259,174 @@ impl<'a> FnCtx<'a> {
                 bad()
             }
             _ => bad(),
+        }
+    }
+
+    /// a client value: `self` | a local client variable | `Client { .. }` / `Self { .. }` | `<client value>.h(args)` with h a
+    /// private by-value helper of the generic impl block (evaluated in place) → (field values, came from a struct literal?)
+    fn client_value(&self, e: &syn::Expr, helpers: &BTreeMap<String, &syn::ImplItemFn>, depth: usize) -> R<(CMap, bool)> {
+        let e = strip(e);
+        match e {
+            syn::Expr::Path(p) if p.path.is_ident("self") && self.has_self => Ok((self.env.clone(), false)),
+            syn::Expr::Path(p) if p.path.get_ident().map(|i| self.clients.contains_key(&i.to_string())).unwrap_or(false) => {
+                Ok((self.clients[&p.path.get_ident().unwrap().to_string()].clone(), false))
+            }
+            syn::Expr::Struct(sl) => {
+                let pn = canon(&sl.path);
+                if pn != "Client" && pn != "Self" {
+                    return fail(FILE, &self.item, format!("a `Client {{ .. }}` / `Self {{ .. }}` literal, found `{pn}`"));
+                }
+                let mut result: CMap = BTreeMap::new();
+                for fv in &sl.fields {
+                    let fname = match &fv.member {
+                        syn::Member::Named(n) => n.to_string(),
+                        _ => return fail(FILE, &self.item, "named fields in the struct literal"),
+                    };
+                    let want = match self.cx.field_kind(&fname) {
+                        Some(k) => k.clone(),
+                        None => return fail(FILE, &self.item, format!("`{fname}` to be a field of Client")),
+                    };
+                    let v = self.expr(&fv.expr)?;
+                    if self.kind(&v)? != want {
+                        return fail(FILE, &self.item, format!("a value of the field's type for `{fname}`, found `{}`", canon(&fv.expr)));
+                    }
+                    if result.insert(fname.clone(), v).is_some() {
+                        return fail(FILE, &self.item, format!("field `{fname}` listed once"));
+                    }
+                }
+                match &sl.rest {
+                    Some(r) => {
+                        let (base, _) = match self.client_value(r, helpers, depth) {
+                            Ok(b) => b,
+                            Err(_) => return fail(FILE, &self.item, format!("`..self` (or a local client value) as the functional-update base, found `..{}`", canon(r))),
+                        };
+                        for (n, v) in &base {
+                            result.entry(n.clone()).or_insert(v.clone());
+                        }
+                    }
+                    None => {
+                        for (n, _) in &self.cx.fields {
+                            if !result.contains_key(n) {
+                                return fail(FILE, &self.item, format!("struct literal listing every field (missing `{n}`) or ending in `..self`"));
+                            }
+                        }
+                    }
+                }
+                Ok((result, true))
+            }
+            syn::Expr::MethodCall(m) if helpers.contains_key(&m.method.to_string()) && depth > 0 => {
+                let h = helpers[&m.method.to_string()];
+                let (recv, _) = self.client_value(&m.receiver, helpers, depth)?;
+                let hp = typed_params(h);
+                if hp.len() != m.args.len() || hp.len() + 1 != h.sig.inputs.len() {
+                    return fail(FILE, &self.item, format!("`{}` to be called with its {} argument(s)", m.method, hp.len()));
+                }
+                let mut scalars = BTreeMap::new();
+                for ((pn, pt), a) in hp.iter().zip(m.args.iter()) {
+                    let v = self.expr(a)?;
+                    match self.cx.kind_of_type(pt) {
+                        Some(k) if k == self.kind(&v)? => {}
+                        _ => return fail(FILE, &self.item, format!("argument `{}` of `{}` to have the parameter's type", canon(a), m.method)),
+                    }
+                    scalars.insert(pn.clone(), v);
+                }
+                let mut inner = FnCtx {
+                    item: format!("{} (via {})", self.item, m.method),
+                    params: self.params.clone(),
+                    env: recv,
+                    has_self: true,
+                    cx: self.cx,
+                    scalars,
+                    clients: BTreeMap::new(),
+                };
+                let (r, _) = inner.eval_body(&h.block, helpers, depth - 1)?;
+                // the helper's result is as good as a struct literal: every field has a definite value
+                Ok((r, true))
+            }
+            e => fail(FILE, &self.item, format!("a client value `self` | <local> | `Client {{ .. }}` | `<client>.<private helper>(..)`, found `{}`", canon(e))),
+        }
+    }
+
+    /// setter / `new` / helper body:
+    ///   ( `self.f = E;` | `x.f = E;` | `let [mut] x = <client value>;` | `let Client { f, g: y, h: _ [, ..] } = <client value>;` )*  <client value>
+    fn eval_body(&mut self, block: &syn::Block, helpers: &BTreeMap<String, &syn::ImplItemFn>, depth: usize) -> R<(CMap, bool)> {
+        let stmts = &block.stmts;
+        if stmts.is_empty() {
+            return fail(FILE, &self.item, "a non-empty body");
+        }
+        let mut literal_seen = false;
+        for st in &stmts[..stmts.len() - 1] {
+            match st {
+                syn::Stmt::Expr(syn::Expr::Assign(a), Some(_)) => {
+                    let v = self.expr(&a.right)?;
+                    let (target, fld): (Option<String>, String) = match (self_field(&a.left), var_field(&a.left)) {
+                        (Some(fld), _) if self.has_self => (None, fld),
+                        (_, Some((x, fld))) if self.clients.contains_key(&x) => (Some(x), fld),
+                        _ => return fail(FILE, &self.item, format!("statement `self.<field> = E;`, found `{}`", canon(st))),
+                    };
+                    match self.cx.field_kind(&fld) {
+                        Some(k) if *k == self.kind(&v)? => {}
+                        Some(_) => return fail(FILE, &self.item, format!("a value of the field's type for `{fld}`")),
+                        None => return fail(FILE, &self.item, format!("statement `self.<field> = E;`, found `{}`", canon(st))),
+                    }
+                    match target {
+                        None => {
+                            self.env.insert(fld, v);
+                        }
+                        Some(x) => {
+                            self.clients.get_mut(&x).unwrap().insert(fld, v);
+                        }
+                    }
+                }
+                syn::Stmt::Local(l) => {
+                    let init = match &l.init {
+                        Some(i) if i.diverge.is_none() => &*i.expr,
+                        _ => return fail(FILE, &self.item, format!("`let x = <client value>;`, found `{}`", canon(l))),
+                    };
+                    let pat = match &l.pat {
+                        syn::Pat::Type(t) => &*t.pat,
+                        p => p,
+                    };
+                    match pat {
+                        syn::Pat::Ident(pi) if pi.by_ref.is_none() && pi.subpat.is_none() => {
+                            let (m, lit) = self.client_value(init, helpers, depth)?;
+                            literal_seen |= lit;
+                            self.clients.insert(pi.ident.to_string(), m);
+                        }
+                        syn::Pat::Struct(ps) if canon(&ps.path) == "Self" || canon(&ps.path) == "Client" => {
+                            let (m, _) = self.client_value(init, helpers, depth)?;
+                            for fp in &ps.fields {
+                                let fname = match &fp.member {
+                                    syn::Member::Named(n) => n.to_string(),
+                                    _ => return fail(FILE, &self.item, "named fields in the destructuring pattern"),
+                                };
+                                let v = match m.get(&fname) {
+                                    Some(v) => v.clone(),
+                                    None => return fail(FILE, &self.item, format!("`{fname}` to be a field of Client")),
+                                };
+                                match &*fp.pat {
+                                    syn::Pat::Wild(_) => {}
+                                    syn::Pat::Ident(pi) if pi.by_ref.is_none() && pi.subpat.is_none() => {
+                                        self.scalars.insert(pi.ident.to_string(), v);
+                                    }
+                                    other => return fail(FILE, &self.item, format!("`field`, `field: name` or `field: _` in the destructuring pattern, found `{}`", canon(other))),
+                                }
+                            }
+                        }
+                        other => return fail(FILE, &self.item, format!("`let x = <client value>;` or `let Client {{ .. }} = <client value>;`, found `let {}`", canon(other))),
+                    }
+                }
+                _ => return fail(FILE, &self.item, format!("statement `self.<field> = E;`, found `{}`", canon(st))),
+            }
+        }
+        let tail = match &stmts[stmts.len() - 1] {
+            syn::Stmt::Expr(e, None) => strip(e),
+            st => return fail(FILE, &self.item, format!("a tail expression `self` or a struct literal, found `{}`", canon(st))),
+        };
+        match self.client_value(tail, helpers, depth) {
+            Ok((m, lit)) => Ok((m, lit || literal_seen)),
+            Err(e) if matches!(tail, syn::Expr::Struct(_) | syn::Expr::MethodCall(_)) => Err(e),
+            Err(_) => fail(FILE, &self.item, format!("a tail expression `self` or a struct literal, found `{}`", canon(tail))),
         }
     }
 
@@ -331,12 +535,12 @@ fn lit_str(e: &syn::Expr) -> Option<String> {
     None
 }
 
-fn url_expr(item: &str, e: &syn::Expr) -> R<UrlX> {
+fn url_expr(item: &str, e: &syn::Expr, helpers: &BTreeMap<String, &syn::ImplItemFn>) -> R<UrlX> {
     let e = strip(e);
     let shape = "`B | B.expect(\"lit\") | B.ok_or(Path::Variant(\"lit\"))?` with B = `self.f.as_ref()` or `self.getter()`";
     match e {
         syn::Expr::Try(t) => {
-            let mut u = url_expr(item, &t.expr)?;
+            let mut u = url_expr(item, &t.expr, helpers)?;
             if !matches!(u.acc, Some(Acc::OkOr(..))) || u.tried {
                 return fail(FILE, item, format!("`?` only directly after `.ok_or(..)`, found `{}`", canon(e)));
             }
@@ -351,6 +555,10 @@ fn url_expr(item: &str, e: &syn::Expr) -> R<UrlX> {
                     if !m.args.is_empty() || m.turbofish.is_some() {
                         return fail(FILE, item, format!("getter call without arguments, found `{}`", canon(e)));
                     }
+                    // a private `&self` helper: its body is read in place
+                    if let Some(h) = helpers.get(&name) {
+                        return url_body(item, h, helpers);
+                    }
                     return Ok(UrlX { base: Base::Getter(name), acc: None, tried: false });
                 }
             }
@@ -360,7 +568,7 @@ fn url_expr(item: &str, e: &syn::Expr) -> R<UrlX> {
                     None => fail(FILE, item, format!("{shape}, found `{}`", canon(e))),
                 },
                 "expect" if m.args.len() == 1 => {
-                    let mut u = url_expr(item, &m.receiver)?;
+                    let mut u = url_expr(item, &m.receiver, helpers)?;
                     let msg = lit_str(&m.args[0]).ok_or(()).or_else(|_| fail(FILE, item, "a string literal in `.expect(..)`"))?;
                     if u.acc.is_some() || u.tried {
                         return fail(FILE, item, format!("{shape}, found `{}`", canon(e)));
@@ -369,7 +577,7 @@ fn url_expr(item: &str, e: &syn::Expr) -> R<UrlX> {
                     Ok(u)
                 }
                 "ok_or" if m.args.len() == 1 => {
-                    let mut u = url_expr(item, &m.receiver)?;
+                    let mut u = url_expr(item, &m.receiver, helpers)?;
                     if u.acc.is_some() || u.tried {
                         return fail(FILE, item, format!("{shape}, found `{}`", canon(e)));
                     }
@@ -390,6 +598,64 @@ fn url_expr(item: &str, e: &syn::Expr) -> R<UrlX> {
         }
         _ => fail(FILE, item, format!("{shape}, found `{}`", canon(e))),
     }
+}
+
+/// body of a private `&self` helper that yields the endpoint URL:
+///   <url expression>     |     match self.f [.as_ref()] | &self.f { Some([ref] x) => Ok(x), None => Err(Path::Variant("lit")) }
+/// (the `match` is `self.f.as_ref().ok_or(Path::Variant("lit"))` written out)
+fn url_body(item: &str, h: &syn::ImplItemFn, helpers: &BTreeMap<String, &syn::ImplItemFn>) -> R<UrlX> {
+    let shape = "a private helper `fn h(&self) -> .. { <url expression> }` or `{ match self.f { Some(ref x) => Ok(x), None => Err(Path::Variant(\"lit\")) } }`";
+    let tail = match h.block.stmts.as_slice() {
+        [syn::Stmt::Expr(e, None)] => strip(e),
+        _ => return fail(FILE, item, format!("{shape} (in `{}`)", h.sig.ident)),
+    };
+    if let syn::Expr::Match(m) = tail {
+        let scrut = match strip(&m.expr) {
+            syn::Expr::Reference(r) => strip(&r.expr),
+            syn::Expr::MethodCall(mc) if mc.method == "as_ref" && mc.args.is_empty() => strip(&mc.receiver),
+            e => e,
+        };
+        let field = match self_field(scrut) {
+            Some(f) => f,
+            None => return fail(FILE, item, format!("{shape} (in `{}`)", h.sig.ident)),
+        };
+        let mut ok = false;
+        let mut err = None;
+        for arm in &m.arms {
+            if arm.guard.is_some() {
+                return fail(FILE, item, format!("{shape} (in `{}`)", h.sig.ident));
+            }
+            let body = strip(&arm.body);
+            match &arm.pat {
+                syn::Pat::TupleStruct(ts) if ts.path.is_ident("Some") && ts.elems.len() == 1 => {
+                    let b = match &ts.elems[0] {
+                        syn::Pat::Ident(pi) if pi.subpat.is_none() => pi.ident.to_string(),
+                        _ => return fail(FILE, item, format!("{shape} (in `{}`)", h.sig.ident)),
+                    };
+                    ok = matches!(body, syn::Expr::Call(c) if canon(&c.func) == "Ok" && c.args.len() == 1 && canon(&c.args[0]) == b);
+                }
+                syn::Pat::Ident(pi) if pi.ident == "None" => {
+                    if let syn::Expr::Call(c) = body {
+                        if canon(&c.func) == "Err" && c.args.len() == 1 {
+                            if let syn::Expr::Call(v) = strip(&c.args[0]) {
+                                if let (syn::Expr::Path(vp), 1) = (&*v.func, v.args.len()) {
+                                    if let (true, Some(l)) = (vp.path.segments.len() >= 2, lit_str(&v.args[0])) {
+                                        err = Some((vp.path.segments.last().unwrap().ident.to_string(), l));
+                                    }
+                                }
+                            }
+                        }
+                    }
+                }
+                _ => return fail(FILE, item, format!("{shape} (in `{}`)", h.sig.ident)),
+            }
+        }
+        return match (ok, err) {
+            (true, Some((v, l))) if m.arms.len() == 2 => Ok(UrlX { base: Base::Field(field), acc: Some(Acc::OkOr(v, l)), tried: false }),
+            _ => fail(FILE, item, format!("{shape} (in `{}`)", h.sig.ident)),
+        };
+    }
+    url_expr(item, tail, helpers)
 }
 
 fn typed_params(f: &syn::ImplItemFn) -> Vec<(String, &syn::Type)> {
@@ -501,6 +767,34 @@ pub fn extract(srcs: &Sources, inv: &Inv) -> R<String> {
         }
     }
 
+    // ---- private functions of the `impl Client` blocks of client.rs (other than the `*_impl` request constructors):
+    // by-value ones may be used by setters to move the fields across (`helpers`), `&self` ones by gated methods to fetch
+    // the endpoint URL (`ref_helpers`); each is read where it is used
+    let mut helpers: BTreeMap<String, &syn::ImplItemFn> = BTreeMap::new();
+    let mut ref_helpers: BTreeMap<String, &syn::ImplItemFn> = BTreeMap::new();
+    for it in &file.items {
+        if let syn::Item::Impl(im) = it {
+            if im.trait_.is_none() && client_args(&im.self_ty).is_some() {
+                for ii in &im.items {
+                    if let syn::ImplItem::Fn(func) = ii {
+                        let n = func.sig.ident.to_string();
+                        if matches!(func.vis, syn::Visibility::Inherited) && !n.ends_with("_impl") {
+                            match receiver(func) {
+                                Some(r) if r.reference.is_none() => {
+                                    helpers.insert(n, func);
+                                }
+                                Some(r) if r.mutability.is_none() => {
+                                    ref_helpers.insert(n, func);
+                                }
+                                _ => {}
+                            }
+                        }
+                    }
+                }
+            }
+        }
+    }
+
     // ---- impl blocks of client.rs
     let mut new_fn: Option<Setter> = None;
     let mut setters: Vec<Setter> = Vec::new();
@@ -559,7 +853,7 @@ pub fn extract(srcs: &Sources, inv: &Inv) -> R<String> {
             let item = format!("Client::{name}");
             let is_pub = matches!(f.vis, syn::Visibility::Public(_));
             if !is_pub {
-                if name.ends_with("_impl") {
+                if name.ends_with("_impl") || helpers.contains_key(&name) || ref_helpers.contains_key(&name) {
                     continue;
                 }
                 return fail(FILE, &item, "only `pub fn`s (and `*_impl` helpers) in impl blocks of Client in client.rs");
@@ -600,83 +894,11 @@ pub fn extract(srcs: &Sources, inv: &Inv) -> R<String> {
                     return fail(FILE, &item, "plain `name: Type` parameters");
                 }
                 let has_self = recv.is_some();
-                let mut fc = FnCtx { item: item.clone(), params: params.clone(), env: BTreeMap::new(), has_self, cx: &cx };
+                let mut fc = FnCtx { item: item.clone(), params: params.clone(), env: BTreeMap::new(), has_self, cx: &cx, scalars: BTreeMap::new(), clients: BTreeMap::new() };
                 for (n, _) in &cx.fields {
                     fc.env.insert(n.clone(), Sym::SelfField(n.clone()));
                 }
-                // statements
-                let stmts = &f.block.stmts;
-                if stmts.is_empty() {
-                    return fail(FILE, &item, "a non-empty body");
-                }
-                for st in &stmts[..stmts.len() - 1] {
-                    match st {
-                        syn::Stmt::Expr(syn::Expr::Assign(a), Some(_)) => {
-                            let fld = match self_field(&a.left) {
-                                Some(fld) if has_self && cx.field_kind(&fld).is_some() => fld,
-                                _ => return fail(FILE, &item, format!("statement `self.<field> = E;`, found `{}`", canon(st))),
-                            };
-                            let v = fc.expr(&a.right)?;
-                            if &fc.kind(&v)? != cx.field_kind(&fld).unwrap() {
-                                return fail(FILE, &item, format!("a value of the field's type for `{fld}`"));
-                            }
-                            fc.env.insert(fld, v);
-                        }
-                        _ => return fail(FILE, &item, format!("statement `self.<field> = E;`, found `{}`", canon(st))),
-                    }
-                }
-                let tail = match &stmts[stmts.len() - 1] {
-                    syn::Stmt::Expr(e, None) => strip(e),
-                    st => return fail(FILE, &item, format!("a tail expression `self` or a struct literal, found `{}`", canon(st))),
-                };
-                let mut result: BTreeMap<String, Sym> = BTreeMap::new();
-                let full;
-                match tail {
-                    syn::Expr::Path(p) if p.path.is_ident("self") && has_self => {
-                        result = fc.env.clone();
-                        full = false;
-                    }
-                    syn::Expr::Struct(sl) => {
-                        let pn = canon(&sl.path);
-                        if pn != "Client" && pn != "Self" {
-                            return fail(FILE, &item, format!("a `Client {{ .. }}` / `Self {{ .. }}` literal, found `{pn}`"));
-                        }
-                        for fv in &sl.fields {
-                            let fname = match &fv.member {
-                                syn::Member::Named(n) => n.to_string(),
-                                _ => return fail(FILE, &item, "named fields in the struct literal"),
-                            };
-                            let want = match cx.field_kind(&fname) {
-                                Some(k) => k.clone(),
-                                None => return fail(FILE, &item, format!("`{fname}` to be a field of Client")),
-                            };
-                            let v = fc.expr(&fv.expr)?;
-                            if fc.kind(&v)? != want {
-                                return fail(FILE, &item, format!("a value of the field's type for `{fname}`, found `{}`", canon(&fv.expr)));
-                            }
-                            if result.insert(fname.clone(), v).is_some() {
-                                return fail(FILE, &item, format!("field `{fname}` listed once"));
-                            }
-                        }
-                        match &sl.rest {
-                            Some(r) if canon(r) == "self" && has_self => {
-                                for (n, v) in &fc.env {
-                                    result.entry(n.clone()).or_insert(v.clone());
-                                }
-                            }
-                            Some(r) => return fail(FILE, &item, format!("`..self` as the only functional-update base, found `..{}`", canon(r))),
-                            None => {
-                                for (n, _) in &cx.fields {
-                                    if !result.contains_key(n) {
-                                        return fail(FILE, &item, format!("struct literal listing every field (missing `{n}`) or ending in `..self`"));
-                                    }
-                                }
-                            }
-                        }
-                        full = true;
-                    }
-                    e => return fail(FILE, &item, format!("a tail expression `self` or a struct literal, found `{}`", canon(e))),
-                }
+                let (result, full) = fc.eval_body(&f.block, &helpers, 3)?;
                 // return type → typestates
                 let ret = match &f.sig.output {
                     syn::ReturnType::Type(_, t) => &**t,
@@ -778,7 +1000,7 @@ pub fn extract(srcs: &Sources, inv: &Inv) -> R<String> {
                             if m.args.is_empty() {
                                 return fail(FILE, &item, "the endpoint URL as first argument of the `*_impl` call");
                             }
-                            let url = url_expr(&item, &m.args[0])?;
+                            let url = url_expr(&item, &m.args[0], &ref_helpers)?;
                             let pnames: Vec<String> = typed_params(f).into_iter().map(|(n, _)| n).collect();
                             for a in m.args.iter().skip(1) {
                                 let an = canon(a);
@@ -792,7 +1014,7 @@ pub fn extract(srcs: &Sources, inv: &Inv) -> R<String> {
                             if wraps_ok {
                                 return fail(FILE, &item, format!("`Ok(self.<name>_impl(..))`, found `{}`", canon(e)));
                             }
-                            let url = url_expr(&item, e)?;
+                            let url = url_expr(&item, e, &ref_helpers)?;
                             if url.tried {
                                 return fail(FILE, &item, "a getter without `?`");
                             }
